@@ -253,6 +253,47 @@ func checkC09(p *Program, r *Report) {
 				}
 			}
 		})
+		// the acceptance test may sit in a helper that is handed the candidates and the bounds
+		// (offerSiblings(left, right, firstChild, lastChild)): its comparisons, parameters bound at the call
+		for _, c := range callsIn(descent) {
+			call, ok := c.(*ssa.Call)
+			h := calleeOf(c)
+			if !ok || h == nil || !trieScope(h) || len(h.Blocks) == 0 || hasLoop(h) || h == first.f || h == last.f {
+				continue
+			}
+			instrsOf(h, func(_ *ssa.BasicBlock, in ssa.Instruction) {
+				bo, ok := in.(*ssa.BinOp)
+				if !ok {
+					return
+				}
+				switch bo.Op {
+				case token.GEQ, token.LEQ, token.LSS, token.GTR:
+				default:
+					return
+				}
+				x, y := canonSessionTerm(bindFrames(p, bo.X, []*ssa.Call{call})), canonSessionTerm(bindFrames(p, bo.Y, []*ssa.Call{call}))
+				switch bo.Op {
+				case token.GEQ:
+					if strings.Contains(y, "Slim.Inners") {
+						lows[y] = true
+					}
+					if strings.Contains(x, "Slim.Inners") {
+						highs[x] = true
+					}
+				case token.LEQ:
+					if strings.Contains(y, "Slim.Inners") {
+						highs[y] = true
+					}
+					if strings.Contains(x, "Slim.Inners") {
+						lows[x] = true
+					}
+				case token.LSS, token.GTR:
+					if strings.Contains(x, "Slim.Inners") || strings.Contains(y, "Slim.Inners") {
+						lows["strict comparison with a child bound"] = true
+					}
+				}
+			})
+		}
 		okLow := len(lows) == 1 && lows[first.next]
 		okHigh := len(highs) == 1 && highs[last.next]
 		r.Check(okLow, "lower bound of neighbour candidates in "+shortFn(descent), p.Pos(descent.Pos()), "the first child id the left-most walk follows: "+abbreviate(first.next),
@@ -470,6 +511,116 @@ func checkNeighbourCandidates(p *Program, r *Report, descent, firstWalk, lastWal
 			}
 		}
 	}
+	// the ids may live in a local record handed to helper methods (nb.offerSiblings(left, right, first,
+	// last)): stores into the fields returned at positions 0 and 2, in the descent and in the loop-free
+	// helpers it hands the record to, of values that are child ids at the call site
+	for _, ret := range returnsOf(descent) {
+		if len(ret.Results) != 3 {
+			continue
+		}
+		for pos, lower := range map[int]bool{0: true, 2: false} {
+			ld, ok := ret.Results[pos].(*ssa.UnOp)
+			if !ok || ld.Op != token.MUL {
+				continue
+			}
+			fa, ok := ld.X.(*ssa.FieldAddr)
+			if !ok {
+				continue
+			}
+			al, ok := fa.X.(*ssa.Alloc)
+			if !ok {
+				continue
+			}
+			for _, c := range callsIn(descent) {
+				call, ok := c.(*ssa.Call)
+				h := calleeOf(c)
+				if !ok || h == nil || !trieScope(h) || len(h.Blocks) == 0 || hasLoop(h) {
+					continue
+				}
+				recIdx := -1
+				for i, a := range call.Call.Args {
+					if a == ssa.Value(al) {
+						recIdx = i
+					}
+				}
+				if recIdx < 0 || recIdx >= len(h.Params) {
+					continue
+				}
+				argOf := func(v ssa.Value) ssa.Value {
+					for i, prm := range h.Params {
+						if v == ssa.Value(prm) && i < len(call.Call.Args) {
+							return call.Call.Args[i]
+						}
+					}
+					return nil
+				}
+				instrsOf(h, func(b *ssa.BasicBlock, in ssa.Instruction) {
+					st, ok := in.(*ssa.Store)
+					if !ok {
+						return
+					}
+					fa2, ok := st.Addr.(*ssa.FieldAddr)
+					if !ok || fa2.X != ssa.Value(h.Params[recIdx]) || fa2.Field != fa.Field {
+						return
+					}
+					arg := argOf(st.Val)
+					if arg == nil || !childDerived(arg, 0) {
+						return
+					}
+					// a dominating comparison of the stored parameter with a parameter bound to a child bound
+					okB := false
+					for d := b; d != nil && !okB; d = d.Idom() {
+						id := d.Idom()
+						if id == nil {
+							break
+						}
+						iff, isIf := lastInstr(id).(*ssa.If)
+						if !isIf || len(d.Preds) != 1 || id.Succs[0] != d {
+							continue
+						}
+						bo, isBo := iff.Cond.(*ssa.BinOp)
+						if !isBo {
+							continue
+						}
+						var other ssa.Value
+						op := bo.Op
+						switch {
+						case bo.X == st.Val:
+							other = bo.Y
+						case bo.Y == st.Val:
+							other = bo.X
+							switch op {
+							case token.GEQ:
+								op = token.LEQ
+							case token.LEQ:
+								op = token.GEQ
+							}
+						default:
+							continue
+						}
+						if (lower && op != token.GEQ) || (!lower && op != token.LEQ) {
+							continue
+						}
+						if oa := argOf(other); oa != nil && strings.Contains(e.eval(oa).String(), "Slim.Inners") {
+							okB = true
+						}
+					}
+					where := p.Pos(st.Pos())
+					if lower {
+						nl++
+						if !okB {
+							bad = append(bad, "the child id stored as left candidate at "+where+" (in "+shortFn(h)+") is not compared (>=) with the node's first child id")
+						}
+					} else {
+						nr++
+						if !okB {
+							badR = append(badR, "the child id stored as right candidate at "+where+" (in "+shortFn(h)+") is not compared (<=) with the node's last child id")
+						}
+					}
+				})
+			}
+		}
+	}
 	bad, badR = dedupStrings(bad), dedupStrings(badR)
 	if nl == 0 || nr == 0 {
 		r.Unk("neighbour candidates of "+shortFn(descent), p.Pos(descent.Pos()), fmt.Sprintf("found %d left and %d right child-id candidates; need at least one each", nl, nr))
@@ -505,8 +656,40 @@ func mayComeFromCallDir(v ssa.Value, f *ssa.Function, dirIdx int, dirVal bool, d
 				return true
 			}
 		}
+	case *ssa.UnOp:
+		// the ids live in a local record (nb.l): whatever the function stores into that field
+		for _, sv := range localFieldStores(x) {
+			if mayComeFromCallDir(sv, f, dirIdx, dirVal, d+1) {
+				return true
+			}
+		}
 	}
 	return false
+}
+
+// localFieldStores: for a load of field k of a local record (an Alloc of this function), the values
+// the function itself stores into that field.
+func localFieldStores(ld *ssa.UnOp) []ssa.Value {
+	if ld.Op != token.MUL {
+		return nil
+	}
+	fa, ok := ld.X.(*ssa.FieldAddr)
+	if !ok {
+		return nil
+	}
+	al, ok := fa.X.(*ssa.Alloc)
+	if !ok {
+		return nil
+	}
+	var out []ssa.Value
+	instrsOf(al.Parent(), func(_ *ssa.BasicBlock, in ssa.Instruction) {
+		if st, ok := in.(*ssa.Store); ok {
+			if fa2, ok := st.Addr.(*ssa.FieldAddr); ok && fa2.X == ssa.Value(al) && fa2.Field == fa.Field {
+				out = append(out, st.Val)
+			}
+		}
+	})
+	return out
 }
 
 // mayComeFromCall: v is (through phis) the result of a call of f.
